@@ -295,6 +295,7 @@ def parse_module(text):
                     ps = []
                     for (t, nm) in f.params:
                         if nm is None: nm = '%' + str(n); n += 1
+                        elif re.match(r'^%\d+$', nm): n = int(nm[1:]) + 1
                         ps.append((t, nm))
                     f.params = ps
                     f._next = n
@@ -908,7 +909,7 @@ class FuncTranslator:
         if op == 'sub':
             pa = s.ptr_of_int(I.a); pb = s.ptr_of_int(I.b)
             if pa is not None and pb is not None:
-                out.append('%s = %s;' % (R, em.mask(em.resolve(I.ty).n, '((%s)((uint8_t*)%s - (uint8_t*)%s))' % (em.ctype(I.ty), V_(pa), V_(pb))))); return
+                out.append('%s = %s;' % (R, em.mask(em.resolve(I.ty).n, '((%s)VERIF_PTRDIFF(%s, %s))' % (em.ctype(I.ty), V_(pa), V_(pb))))); return
         if op in BINOPS:
             out.append('%s = %s;' % (R, em.binop(op, I.ty, V_(I.a), V_(I.b)))); return
         if op == 'fneg': out.append('%s = -(%s);' % (R, V_(I.a))); return
@@ -1027,7 +1028,9 @@ class FuncTranslator:
             msg = 'assertion'
             if v.kind == 'global' and v.name in em.m.globals and em.m.globals[v.name][1] is not None and em.m.globals[v.name][1].kind == 'bytes':
                 msg = em.m.globals[v.name][1].data.rstrip(b'\0').decode('latin1').replace('\\', '/').replace('"', "'")
-            out.append('__CPROVER_assert(%s, "%s");' % (V_(args[0]), msg)); return
+            out.append('__CPROVER_assert(%s, "%s");' % (V_(args[0]), msg))
+            if I.op == 'invoke': out.append(s.goto(b, I.ok))
+            return
         if name is not None:
             tgt = name
             if tgt in em.m.aliases and em.m.aliases[tgt].kind == 'global': tgt = em.m.aliases[tgt].name
@@ -1158,11 +1161,13 @@ class FuncTranslator:
         d = args[0]; n = args[2]
         if n.kind != 'int': 
             # symbolic length: element loop if element type known and not bytes
-            tb = s.typed_base(d) or (s.typed_base(args[1]) if kind != 'memset' else None)
-            if tb is None or tb[2] != 0: return False
-            T = tb[1]; r = em.resolve(T)
+            T = s.origin(d) or (s.origin(args[1]) if kind != 'memset' else None)
+            if T is None: return False
+            r = em.resolve(T)
             if isinstance(r, TArr): return False
             sz = em.size_align(T)[0]; ct = em.ctype(T)
+            if sz == 0: return False
+            out.append('VERIF_XLATE_CHECK((%s) %% %d == 0);' % (V_(n), sz))
             if kind == 'memset':
                 if not (args[1].kind == 'int' and args[1].val == 0): return False
                 out.append('{ %s* d_ = (%s*)%s; uint64_t n_ = (%s) / %d; for (uint64_t i_ = 0; i_ < n_; i_++) d_[i_] = (%s)%s; }' % (ct, ct, V_(d), V_(n), sz, ct, '{0}' if isinstance(r, TStruct) else '0')); return True
@@ -1300,6 +1305,8 @@ void verif_native_assume(int c); void verif_native_assert(int c, const char* m);
 #endif
 #define BITCAST(TT,FT,e) ({ FT f_ = (e); TT t_; memcpy(&t_, &f_, sizeof(t_)); t_; })
 static inline int64_t SDIV64(int64_t a, int64_t b) { return a / b; }
+/* CBMC does not constant-fold NULL - NULL; equality of pointers does fold */
+#define VERIF_PTRDIFF(a, b) (((uint8_t*)(a) == (uint8_t*)(b)) ? (int64_t)0 : (int64_t)((uint8_t*)(a) - (uint8_t*)(b)))
 static inline int64_t SREM64(int64_t a, int64_t b) { return a % b; }
 static inline __int128 SDIV128(__int128 a, __int128 b) { return a / b; }
 static inline __int128 SREM128(__int128 a, __int128 b) { return a % b; }
@@ -1312,9 +1319,11 @@ unsigned __int128 verif_ctlz(unsigned __int128 x, int n); unsigned __int128 veri
 unsigned __int128 verif_fshl(unsigned __int128 a, unsigned __int128 b, unsigned c, int n); unsigned __int128 verif_fshr(unsigned __int128 a, unsigned __int128 b, unsigned c, int n);
 #ifdef __CPROVER__
 #define VERIF_UNREACHABLE() __CPROVER_assert(0, "llvm unreachable reached")
+#define VERIF_XLATE_CHECK(c) __CPROVER_assert(c, "translator assumption: typed element copy length is a multiple of the element size")
 #define VERIF_TRAP() __CPROVER_assert(0, "llvm.trap reached")
 #else
 #define VERIF_UNREACHABLE() verif_native_assert(0, "llvm unreachable reached")
+#define VERIF_XLATE_CHECK(c) do { if (!(c)) { printf("XLATE-CHECK-FAIL\n"); exit(3); } } while (0)
 #define VERIF_TRAP() verif_native_assert(0, "llvm.trap reached")
 #endif
 '''
